@@ -233,19 +233,19 @@ def distribute (p : Params d) (e : Econ d) : Outcome (Econ d) :=
 def goal (p : Params d) (x : Ind d → Rat) (s : Fin d.n) (f : Ind d) : Rat :=
   x f * p.a s f * durOrZero p s
 
-/-- `np.allclose(inputs_stock, matrix_stock_goal)`: tracked rows cell-wise close; an infinite row is
-    `inf` against `x·a·inf`, which is `inf` (close) when `x·a ≠ 0` and `nan` (not close) otherwise. -/
+/-- `np.allclose(inputs_stock[finite], matrix_stock_goal[finite])`: every tracked (finite-duration)
+    inventory is cell-wise close to its goal; inputs with infinite inventories take no part. -/
 def ordersClose (p : Params d) (stock : Fin d.n → Ind d → Rat) (x : Ind d → Rat) : Prop :=
   ∀ s r t, match p.invDur s with
     | some _ => isClose (stock s (r, t)) (goal p x s (r, t))
-    | none => x (r, t) * p.a s (r, t) ≠ 0
+    | none => True
 
 instance (p : Params d) (st : Fin d.n → Ind d → Rat) (x : Ind d → Rat) :
     Decidable (ordersClose p st x) := by
   unfold ordersClose
   have : ∀ s r t, Decidable (match p.invDur s with
     | some _ => isClose (st s (r, t)) (goal p x s (r, t))
-    | none => x (r, t) * p.a s (r, t) ≠ 0) := by
+    | none => True) := by
     intro s r t; split <;> infer_instance
   infer_instance
 
